@@ -201,3 +201,17 @@ def rng_for(*keys):
 def load_json(path):
     with open(path) as f:
         return json.load(f)
+
+
+def all_cases(mod, seed, tier):
+    """Witness cases of the open known findings of this property (pinned, seed-independent),
+    followed by the generated workload."""
+    path = os.path.join(os.path.dirname(os.path.dirname(os.path.abspath(__file__))), 'known_findings.json')
+    wit = []
+    if os.path.exists(path):
+        for e in load_json(path).get('findings', []):
+            if e.get('property') == mod.PROPERTY and e.get('status') == 'open' and e.get('witness'):
+                ws = e['witness'] if isinstance(e['witness'], list) else [e['witness']]
+                for w in ws:
+                    wit.append(dict(w, witness=e['key']))
+    return wit + list(mod.cases(seed, tier))
